@@ -8,6 +8,7 @@ import NngModel.Proofs.LifeAioStep
 import NngModel.Proofs.LifeStep
 import NngModel.Proofs.LifeGlobalStep
 import NngModel.Proofs.LifePend
+import NngModel.Proofs.LifeJudgeMain
 import NngModel.Generated.C14
 namespace Nng.C10
 open Nng.Life Nng.LifeModel
@@ -166,10 +167,29 @@ theorem close_closes_everything (tr : List (LOp × List Nat)) (s : Nat) (orc : L
   exact opClose_drains (run {} tr) s ho hc
 
 
-/-- NOT PROVED (statement only): the C10 judge of Spec/Life.lean accepts every trace the model can
-    produce (same status as `Nng.C14.judge_accepts_model_statement`) -/
+/-- The unconditional form: the C10 judge of Spec/Life.lean accepts every trace the model can produce.  It is
+    FALSE (`judge_needs_modelled`): `close2` and `race` are judged but not modelled, the model answers
+    `UNMODELLED` and the judge misses the result of the close.  Kept as a `def`. -/
 def judge_accepts_model_statement : Prop :=
   ∀ tr : List (LOp × List Nat), (judgeRun (modelTrace {} tr)).err10 = none
+
+/-- the hypothesis of `judge_accepts_model`: every op of the sequence was modelled; decidable -/
+def Modelled (tr : List (LOp × List Nat)) : Prop := (run {} tr).unmodelled = false
+
+instance (tr : List (LOp × List Nat)) : Decidable (Modelled tr) := inferInstanceAs (Decidable (_ = false))
+
+/-- The C10 judge of Spec/Life.lean accepts every trace of the model, for every op sequence in which every
+    op is modelled and for every oracle (same simulation as `Nng.C14.judge_accepts_model`). -/
+theorem judge_accepts_model (tr : List (LOp × List Nat)) (hm : Modelled tr) :
+    (judgeRun (modelTrace {} tr)).err10 = none :=
+  (judge_accepts tr hm).2
+
+/-- the hypothesis is needed -/
+theorem judge_needs_modelled : ¬ judge_accepts_model_statement := by
+  intro h
+  have := h [(.close2 0, [])]
+  revert this
+  decide
 
 /-- non-vacuity of `close_closes_everything`: an open socket with a listener, a connected pipe with all
     notifications registered, and a parked receive -/
@@ -181,6 +201,9 @@ example : ((run {} sampleClose).unmodelled, ((run {} sampleClose).socks 0).opene
 example : (run {} (sampleClose ++ [(.close 0, [])])).pipes.map (fun p => (p.reaped, p.evs)) =
     [(true, [.pre, .post, .rem])] := by decide
 example : (judgeRun (modelTrace {} (sampleClose ++ [(.close 0, [])]))).err10 = none := by decide
+example : Modelled (sampleClose ++ [(.close 0, [])]) := by decide
+example : (judgeRun (modelTrace {} (sampleClose ++ [(.close 0, [])]))).err10 = none :=
+  judge_accepts_model _ (by decide)
 
 
 /-! ### Part 2 — termination of close: a ranking argument
